@@ -29,7 +29,7 @@ ASSUMPTIONS = [
 ]
 
 ENCODERS = {"str": str, "uri": (lambda s: s.uri), "none": (lambda s: None)}
-KEYS = ["comment", "author", "frames", "k1"]
+KEYS = ["comment", "author", "frames", "k1", "version", "type"]   # the last two are also names of Sid keys
 
 
 def _m():
@@ -60,7 +60,8 @@ def cases(draw):
             sr = draw(gens.gt_search(m, t, f))
         else:
             sr = draw(gens.search_from(m, t, f, allow_gt=False, allow_malformed=False))
-        attrs = draw(st.sampled_from([None, None, ["comment"], ["comment", "author"], ["nokey"], ["sid", "frames"], ["k1", "nokey", "comment"]]))
+        attrs = draw(st.sampled_from([None, None, ["comment"], ["comment", "author"], ["nokey"], ["sid", "frames"], ["k1", "nokey", "comment"],
+                                        ["version"], ["type", "comment"]]))
         enc = draw(st.sampled_from(["str", "str", "uri", "none"]))
         searches.append({"s": sr["s"], "attributes": attrs, "encode": enc})
     return {"entities": [[t, f] for t, f in ents], "data": data, "searches": searches}
